@@ -285,6 +285,17 @@ func (m *C16Monitor) followSteps(c *Chain, ctx sdk.Context, sh *ref.Shapes) {
 	if signed*3 <= total*2 {
 		return
 	}
+	// the property speaks of validator sets "with total power of at least 2 whole tokens": below that two thirds round
+	// down to a zero threshold, which the contract refuses by design
+	var newTotal uint64
+	for _, v := range cur.set.BridgeValidatorSet {
+		newTotal += v.Power
+	}
+	if newTotal < 2 || total < 2 {
+		m.st.Count("c16.contract-step.total-power-below-2-skipped")
+		cur.steps = true
+		return
+	}
 	model := &ref.Bridge{Sh: sh, PowerThreshold: new(big.Int).SetUint64(prev.par.PowerThreshold), ValidatorTimestamp: new(big.Int).SetUint64(prev.ts), LastCheckpoint: prev.par.Checkpoint}
 	m.st.Count("c16.contract-step.evals")
 	m.st.Bucket("c16|step|signers=%d/%d|unusable=%d|setchange=%v", minInt(countNonEmpty(rsigs), 6), len(rsigs), minInt(unusable, 2), len(prev.set.BridgeValidatorSet) != len(cur.set.BridgeValidatorSet))
